@@ -1,4 +1,4 @@
-// C11 part 1: instantiations for int8_t
+// C11 part 1: instantiations for double
 #include "harness/c11_cells.hh"
 namespace c11 {
 using namespace PPL;
@@ -16,6 +16,5 @@ template <class T> static void reg_mp() {
   Runner<CNW<T, PD> >::register_all(); Runner<CNW<T, PW> >::register_all();
   Runner<CNW<T, Checked_Number_Transparent_Policy<T> > >::register_all(); Runner<RAWW<T> >::register_all();
 }
-bool& thorough_alphabets_ref() { return thorough_alphabets(); }
-void register_int8() { reg_int<signed char>(); }
+void register_double() { reg_flt<double>(); }
 }
